@@ -212,6 +212,40 @@ class PathFacts:
         self._edge_cache[key] = res
         return res
 
+    def switch_local(self, b):
+        t = self.blocks[b]['t']
+        if t['k'] != 'switch' or t.get('dty') != 'bool':
+            return None
+        pl = t['d'].get('c') or t['d'].get('m')
+        if pl is None or pl['pr']:
+            return None
+        return pl['l']
+
+    def edge_facts_tracked(self, b, lab, fs, l):
+        """edge facts of a bool switch on local l, from the expression this path assigned to l (if tracked)"""
+        for f in fs:
+            if f[0] == '~c' and f[1] == l and isinstance(f[2], tuple):
+                key = (b, lab, f[2][1])
+                if key in self._edge_cache:
+                    return self._edge_cache[key]
+                e = f[2][2]
+                if mentions_log(e):
+                    break
+                if lab[0] == 'sw':
+                    pol = (lab[1] != '0')
+                else:
+                    pol = ('0' in lab[1])
+                    if not ('0' in lab[1]) and ('1' in lab[1]):
+                        pol = False
+                res = list(bool_facts(e, pol))
+                if self.loop_free and res:
+                    res.append(('~b', e, pol))
+                if self.record_stores:
+                    res = res + self.store_markers(b)
+                self._edge_cache[key] = res
+                return res
+        return self.edge_facts(b, lab)
+
     def store_markers(self, b):
         key = ('sm', b)
         if key in self._edge_cache:
@@ -276,13 +310,17 @@ class PathFacts:
             for (s, lab) in self.cfg.succ[b]:
                 if self.entry and s == self.entry:
                     continue  # one iteration only
-                ef = self.edge_facts(b, lab)
+                ef0 = self.edge_facts(b, lab)
+                swl = self.switch_local(b)
                 new = set()
                 for fs in st2:
                     if not self.edge_feasible(b, lab, fs):
                         continue
+                    ef = self.edge_facts_tracked(b, lab, fs, swl) if swl is not None else ef0
                     ns = fs | frozenset(ef) if ef else fs
                     if self.loop_free and ef and contradictory(ns, ef):
+                        continue
+                    if ef and state_contradiction(fs, ef, self.immut if self.history else None):
                         continue
                     new.add(ns)
                 old = IN[s]
@@ -305,6 +343,10 @@ class PathFacts:
             return self._edge_cache[key]
         script = []
         bb = self.blocks[b]
+        defs = self.fa.defs()
+
+        def multi(l):
+            return len(defs.get(l, ())) > 1
         for s in bb['s']:
             if 'p' not in s:
                 continue
@@ -320,12 +362,28 @@ class PathFacts:
                 # unit variant (e.g. Queue::Blocking, None): tracked as a symbolic constant
                 script.append(('set', p['l'], 'agg:%s::%s' % (rv['adt'], rv['variant'])))
             elif rv['k'] == 'use' and ('c' in rv['x'] or 'm' in rv['x']) and not (rv['x'].get('c') or rv['x'].get('m'))['pr']:
-                script.append(('copy', p['l'], (rv['x'].get('c') or rv['x'].get('m'))['l']))
+                k = bb['s'].index(s)
+                alt = None
+                if self.fa.fn.local_ty(p['l']) == 'bool' and multi(p['l']):
+                    e = self.fa.operand(rv['x'], (b, k))
+                    if isinstance(e, tuple) and e and e[0] in ('bin', 'un', 'call'):
+                        alt = ('x', (b, k), e)
+                script.append(('copy', p['l'], (rv['x'].get('c') or rv['x'].get('m'))['l'], alt))
+            elif self.fa.fn.local_ty(p['l']) == 'bool' and multi(p['l']) and (
+                    (rv['k'] == 'bin' and rv['op'] in ('Eq', 'Ne', 'Lt', 'Le', 'Gt', 'Ge')) or (rv['k'] == 'un' and rv['op'] == 'Not')):
+                # materialised condition (`let z = a != 0 && b == 0; if z {..}`): the expression is tracked so
+                # that the later test of the local yields the facts of the expression this path assigned
+                e = self.fa.rvalue(rv, (b, bb['s'].index(s)))
+                script.append(('set', p['l'], ('x', (b, bb['s'].index(s)), e)))
             else:
                 script.append(('kill', p['l']))
         t = bb['t']
         if t['k'] == 'call' and not t['d']['pr']:
-            script.append(('kill', t['d']['l']))
+            if self.fa.fn.local_ty(t['d']['l']) == 'bool' and 'indirect' not in t['f'] and multi(t['d']['l']):
+                e = self.fa.call_value(t, (b, len(bb['s'])))
+                script.append(('set', t['d']['l'], ('x', (b, len(bb['s'])), e)))
+            else:
+                script.append(('kill', t['d']['l']))
         am = self.fa.addr_taken_mut()
         script = [x for x in script if x[1] not in am]
         self._edge_cache[key] = script
@@ -338,7 +396,7 @@ class PathFacts:
         out = set()
         for fs in state:
             cur = {f[1]: f[2] for f in fs if f[0] == '~c'}
-            if not cur and not any(x[0] == 'set' for x in script):
+            if not cur and not any(x[0] == 'set' or (x[0] == 'copy' and len(x) > 3 and x[3] is not None) for x in script):
                 out.add(fs)
                 continue
             for x in script:
@@ -347,6 +405,8 @@ class PathFacts:
                 elif x[0] == 'copy':
                     if x[2] in cur:
                         cur[x[1]] = cur[x[2]]
+                    elif len(x) > 3 and x[3] is not None:
+                        cur[x[1]] = x[3]
                     else:
                         cur.pop(x[1], None)
                 else:
@@ -360,7 +420,7 @@ class PathFacts:
         """constant known to be held by a plain local on this path (bits as str, or 'agg:<adt>::<variant>'), else None"""
         for f in fs:
             if f[0] == '~c' and f[1] == local:
-                return f[2]
+                return None if isinstance(f[2], tuple) else f[2]
         return None
 
     def at_call(self, b):
@@ -378,6 +438,8 @@ class PathFacts:
         for f in fs:
             if f[0] == '~c' and f[1] == pl['l']:
                 v = f[2]
+                if isinstance(v, tuple):
+                    return True
                 if lab[0] == 'sw':
                     return lab[1] == v
                 return v not in lab[1]
@@ -404,10 +466,33 @@ class PathFacts:
         out = set()
         for (s2, l2) in self.cfg.succ[b]:
             if s2 == s and (lab is None or lab == l2):
-                ef = self.edge_facts(b, l2)
-                for fs in st2:
+                swl = self.switch_local(b)
+                for fs in self.track_consts(b, st2):
+                    ef = self.edge_facts_tracked(b, l2, fs, swl) if swl is not None else self.edge_facts(b, l2)
                     out.add(fs | frozenset(ef))
         return minimal(out)
+
+
+def state_contradiction(fs, new_facts, immut=None):
+    """a new variant test of the same place with a different outcome cannot succeed.  State mode: every fact in fs
+    still holds (its memory was not written since).  History mode (immut given): only for places reached from
+    shared-reference parameters, which cannot change during the call"""
+    for m in new_facts:
+        if m[0] in ('variant', 'notvariant') and immut is not None:
+            rr = roots_read(m)
+            if not (rr and rr <= immut and not any(x and x[0] in ('local', 'call', 'rec', 'phi') for x in walk(m[1]))):
+                continue
+        if m[0] == 'variant':
+            for f in fs:
+                if f[0] == 'variant' and f[1] == m[1] and f[2] != m[2]:
+                    return True
+                if f[0] == 'notvariant' and f[1] == m[1] and m[2] in f[2]:
+                    return True
+        elif m[0] == 'notvariant':
+            for f in fs:
+                if f[0] == 'variant' and f[1] == m[1] and f[2] in m[2]:
+                    return True
+    return False
 
 
 def contradictory(fs, new_facts):
@@ -452,6 +537,8 @@ def minimal(sets, force=False):
 def fact_killed(f, ks, immut=frozenset()):
     """is fact f invalidated by the kill keys ks?  Loads rooted at a shared-reference
     parameter (index in immut) cannot change during the call and are never killed."""
+    if f[0] == '~c' and isinstance(f[2], tuple):
+        return fact_killed(('btrue', strip_sites(f[2][2])), ks, immut)
     if f[0] in ('stored', 'called', '~b', '~v', '~c'):
         return False  # history markers
     rr = roots_read(f)
